@@ -1,0 +1,18 @@
+//go:build verif
+// +build verif
+
+package table
+
+import (
+	"github.com/grafana/carbon-relay-ng/aggregator"
+	"github.com/grafana/carbon-relay-ng/matcher"
+	"github.com/grafana/carbon-relay-ng/rewriter"
+	"github.com/grafana/carbon-relay-ng/route"
+)
+
+// VerifConfigSlices returns the slices of the currently published configuration
+// (the very slice headers a concurrent Dispatch would be iterating over).
+func (table *Table) VerifConfigSlices() ([]rewriter.RW, []*aggregator.Aggregator, []*matcher.Matcher, []route.Route) {
+	conf := table.config.Load().(TableConfig)
+	return conf.rewriters, conf.aggregators, conf.blacklist, conf.routes
+}
